@@ -445,7 +445,7 @@ func TestVerifC24(t *testing.T) {
 				for k := c; k < c+c24Chunk && k < len(bases); k++ {
 					b := bases[k]
 					in := fmt.Sprintf("kind=%s stack=plain rbuf=%d segs=%s", kind, b.rbuf, c24SegsString(b.segs))
-					if !c24Mine(e, 0.5) || rp.skip(scen, in) {
+					if !c24Mine(e, 0.6) || rp.skip(scen, in) {
 						continue
 					}
 					obs, calls, reused, f := c24Case(t, kind, "plain", b.rbuf, b.segs)
